@@ -28,7 +28,7 @@ func takeRateState(tok0 math.Int, rate math.LegacyDec, second int) (*env.Env, ti
 	mk := func(denom string, tok math.Int, r math.LegacyDec, start time.Time) {
 		a := types.AllianceAsset{Denom: denom, RewardWeight: math.LegacyOneDec(),
 			RewardWeightRange: types.RewardWeightRange{Min: math.LegacyZeroDec(), Max: math.LegacyNewDec(10)},
-			TakeRate: r, TotalTokens: tok, TotalValidatorShares: math.LegacyNewDecFromInt(tok),
+			TakeRate:          r, TotalTokens: tok, TotalValidatorShares: math.LegacyNewDecFromInt(tok),
 			RewardStartTime: start, RewardChangeRate: math.LegacyOneDec(), LastRewardChangeTime: start, IsInitialized: true}
 		if err := e.K.SetAsset(e.Ctx, a); err != nil {
 			panic(err)
